@@ -202,6 +202,13 @@ func checkC05(res *Result) {
 					setOnActivity++
 				} else if inLoop(c) {
 					setInLoop++
+					// each object needs an id property of its own: the value installed must be
+					// constructed inside the same iteration
+					fresh := false
+					if nc, ok := unwrap(cc.Args[0]).(*ssa.Call); ok && staticName(nc) == "streams.NewJSONLDIdProperty" {
+						fresh = loopBlocks(c.Block())[nc.Block()]
+					}
+					res.check(fresh, "C05-R4", fname(fn), p.pos(c), "each object gets an id property of its own (constructed inside the loop)", "the id property installed on the objects is created outside the loop: all objects share one id")
 					s := ff.at[c]
 					okCreate := false
 					if s != nil {
@@ -245,6 +252,14 @@ func checkC05(res *Result) {
 		}
 	}
 
+	// R6k / R5w: what is copied where
+	res.Rule("C05-R6k", "normalizeRecipients: for each of to/bto/cc/bcc/audience, entries are copied activity→object and object→activity, each append receiving only values of its own kind and guarded by the receiver's own set; fresh properties are installed")
+	checkKindConsistency(res, p, "C05-R6k", "normalizeRecipients", 2, true)
+	checkFreshInstalled(res, p, "C05-R6k", []string{"normalizeRecipients", "SocialWrappedCallbacks.create", "sideEffectActor.addToOutbox"}, 12)
+	res.Rule("C05-R5w", "wrapInCreate: the Create's object is the wrapped value, its actor the outbox owner, and to/bto/cc/bcc/audience/published are copied from the object, kind by kind")
+	checkKindConsistency(res, p, "C05-R5w", "wrapInCreate", 1, false)
+	checkWrapInCreate(res, p, E)
+
 	// R7
 	if fn := p.MustFunc(res, "C05-R7", "baseActor.PostOutboxScheme"); fn != nil {
 		d := findCalls(E, fn, "baseActor.deliver")
@@ -262,4 +277,45 @@ func checkC05(res *Result) {
 	res.Assumptions = append(res.Assumptions, "a custom DelegateActor is outside the library: the pipeline is checked for *sideEffectActor", "CFG paths over-approximate feasible paths")
 	res.Undecided = []string{"union semantics of normalizeRecipients on overlapping sets (value level)", "'newest first' over a history of posts (the per-post step is decided)", "that fresh ids are distinct (Database.NewID is the application's)"}
 	res.Trusted = []string{"go/types, go/ssa (x/tools v0.29.0)", "e1_effects.go, e2_facts.go, e9_errflow.go"}
+}
+
+func checkWrapInCreate(res *Result, p *Pub, E *Effects) {
+	fn := p.MustFunc(res, "C05-R5w", "wrapInCreate")
+	if fn == nil {
+		return
+	}
+	g := flowOf(fn)
+	want := map[string]func(ssa.Value) bool{
+		"SetActivityStreamsObject": func(v ssa.Value) bool {
+			return anyBackward(g, v, func(x ssa.Value) bool { return isParamNamed(x, "o") })
+		},
+		"SetActivityStreamsActor": func(v ssa.Value) bool {
+			return anyBackward(g, v, func(x ssa.Value) bool { return isParamNamed(x, "actor") })
+		},
+		"SetActivityStreamsPublished": func(v ssa.Value) bool {
+			return anyBackward(g, v, func(x ssa.Value) bool { return isCallNamed(x, "GetActivityStreamsPublished") })
+		},
+	}
+	seen := map[string]bool{}
+	for _, ci := range callsIn(fn) {
+		cc := ci.Common()
+		if !cc.IsInvoke() {
+			continue
+		}
+		if f, ok := want[cc.Method.Name()]; ok {
+			seen[cc.Method.Name()] = true
+			res.check(f(cc.Args[0]), "C05-R5w", "wrapInCreate", p.pos(ci), cc.Method.Name()+" receives the corresponding datum of the wrapped object / outbox owner", "no flow from the expected source into the argument")
+		}
+	}
+	for m := range want {
+		res.check(seen[m], "C05-R5w", "wrapInCreate", p.pos(fn), m+" is called on the Create", "missing")
+	}
+	// WrapInCreate (sideEffectActor) passes ActorForOutbox(outboxIRI) as the actor
+	if w := p.Func("sideEffectActor.WrapInCreate"); w != nil {
+		gw := flowOf(w)
+		for _, c := range findCalls(E, w, "wrapInCreate") {
+			res.check(anyBackward(gw, c.Common().Args[2], func(x ssa.Value) bool { return isCallNamed(x, "Database.ActorForOutbox") }), "C05-R5w", fname(w), p.pos(c), "the Create's actor is the owner of the outbox (ActorForOutbox)", "actor argument does not derive from Database.ActorForOutbox")
+			res.check(isParamNamed(unwrap(c.Common().Args[1]), "obj"), "C05-R5w", fname(w), p.pos(c), "the wrapped value is the posted object", "argument mismatch")
+		}
+	}
 }
